@@ -54,6 +54,16 @@ func (c *Conn) ResetSession(ctx context.Context) error {
 }
 
 // Prepare returns a prepared statement, bound to this connection.
+// CheckNamedValue hands argument checking to the target connection when it has its own
+// (go-sql-driver/mysql accepts e.g. uint64 above MaxInt64, which the default converter rejects),
+// so that bound arguments are treated exactly as without the proxy.
+func (c *Conn) CheckNamedValue(nv *driver.NamedValue) error {
+	if checker, ok := c.targetConn.(driver.NamedValueChecker); ok {
+		return checker.CheckNamedValue(nv)
+	}
+	return driver.ErrSkip
+}
+
 func (c *Conn) Prepare(query string) (driver.Stmt, error) {
 	s, err := c.targetConn.Prepare(query)
 	if err != nil {
